@@ -1,6 +1,7 @@
 /- C06 driver: op lines in, observable lines out (same format as props/C06/harness.cpp). -/
 import TboxModel.Util
 import TboxModel.C06.Model
+import TboxModel.C06.Kernel
 import TboxModel.C06.NetModel
 open Tbox.Util Tbox.C06
 
@@ -239,7 +240,13 @@ def parse (ws : List String) : Option Net.Op :=
   | ["nfault", kind, k] => do
       let k ← small? k 9
       if kind == "socket" then pure (.fault 0 k) else if kind == "accept" then pure (.fault 1 k)
-      else if kind == "late" then pure (.fault 2 k) else if kind == "inprog" then pure (.fault 3 k) else none
+      else if kind == "late" then pure (.fault 2 k) else if kind == "inprog" then pure (.fault 3 k)
+      -- connect() answers EINTR although the connection is made: handled like EINPROGRESS (no effect in the model)
+      else if kind == "eintr" then pure (.fault 3 k)
+      -- accept() answers EAGAIN / ECONNABORTED with the connection still pending: like EMFILE, the next pass tries again
+      else if kind == "again" then pure (.fault 1 k) else if kind == "abortkeep" then pure (.fault 1 k)
+      -- connect() answers ECONNREFUSED at once; accept() answers ECONNABORTED and the pending connection is gone
+      else if kind == "refuse" then pure (.fault 4 k) else if kind == "abort" then pure (.fault 5 k) else none
   | ["nscb", w, sc] => do
       let w ← which? w
       pure (.svScript w (← nscript? (if w = 3 then "pdchm" else "pdschm") sc))
@@ -323,6 +330,8 @@ def tags (n n' : N) (op : Net.Op) : List String :=
   (if n'.sockFail < n.sockFail then ["net-socket-fail"] else []) ++
   (if n'.acceptFail < n.acceptFail then ["net-accept-fail"] else []) ++
   (if n'.lateFail < n.lateFail then ["net-late-fail"] else []) ++
+  (if n'.connFail < n.connFail then ["net-connect-refused"] else []) ++
+  (if n'.acceptAbort < n.acceptAbort then ["net-accept-aborted"] else []) ++
   (if n'.budget < n.budget then ["net-send-more"] else []) ++
   (if (n'.links.zip n.links).any (fun (a, b) => (a.cShut && !b.cShut) || (a.sShut && !b.sShut)) then ["net-shutdown"] else []) ++
   (if (n.sv.st != .none && n'.sv.st == .none && (match op with | .svCleanup => false | _ => true)) ||
@@ -345,32 +354,122 @@ def stepLine (n : N) (ws : List String) : N × List String :=
 
 end NetDrv
 
-def stepLine (s : S) (line : String) : S × List String :=
-  let ws := words line
+open Tbox.C06.Kern in
+def showSys : Sys → String
+  | .nonblock => "nonblock"
+  | .linger on secs => "linger:" ++ b01 on ++ ":" ++ toString secs
+  | .shutdown how => "shutdown:" ++ toString how
+  | .close => "close"
+
+def showEnd : Kern.PeerEnd → String
+  | .open => "open" | .eof => "eof" | .reset => "reset"
+
+/-- the interposed harness runs on an AF_UNIX socket pair -/
+def unixCfg : Kern.Cfg := { inet := false }
+
+/-- the AF_INET scenario (`tcp …`) as an execution of the kernel-queue model: every payload queued in
+the connected callback, natural kernel answers, active close at send-complete (from inside the
+callback or from the main flow), the deferred tasks, then the peer reads to the end -/
+def tcpLine (ws : List String) : Option (List String) :=
   match ws with
-  | [] => (s, [])
-  | "e2e" :: _ => (s, (e2eLine ws).getD ["bad-op"])
+  | [_, closer, how, rb, ch, sizes] => do
+      if closer ≠ "sd" ∧ closer ≠ "ss" ∧ closer ≠ "cs" then none
+      if how ≠ "cb" ∧ how ≠ "op" ∧ how ≠ "opu" then none
+      let rb ← rb.toNat?; let ch ← ch.toNat?
+      if rb < 1024 ∨ rb > 1048576 ∨ ch < 256 ∨ ch > 1048576 then none
+      let parts ← (sizes.splitOn ",").mapM fun t =>
+        match t.splitOn ":" with
+        | [a, b] => do
+            let a ← a.toNat?; let b ← b.toNat?
+            if a < 256 ∧ b ≠ 0 ∧ b ≤ 8388608 then some (a, b) else none
+        | _ => none
+      let total := (parts.map (·.2)).foldl (· + ·) 0
+      if parts.length > 16 ∨ total > 33554432 then none
+      let script : List Act := if how = "cb" then [.disconnect] else []
+      let ops : List Kern.KOp :=
+        [.user .cinit 0, .user (.setScb (some script)) 0] ++ parts.map (fun (a, b) => .user (.send (genBytes a b)) 0) ++
+        [.user .wr 0] ++ (if how = "opu" then [.user (.feed (List.replicate 100 0x5a)) 0] else []) ++
+        (if how = "cb" then [] else [.user .disconnect 0]) ++ [.deferred 0, .peerRead total, .peerRead 0]
+      let k := Kern.krun {} Kern.kinit ops
+      let sc := (k.u.hist.filter fun e => match e with | .sendComplete _ => true | _ => false).length
+      let dc := (k.u.hist.filter fun e => match e with | .disconnected _ _ => true | _ => false).length
+      -- the library side's own calls on the connection: the harness's descriptor was made non-blocking by accept4/socket flags
+      let sys := (k.sys.filter fun c => c != .nonblock).map showSys
+      pure ["B tcp tcp-" ++ closer ++ "-" ++ how ++ (if total ≥ 2097152 then " tcp-2MiB" else "") ++ (if k.unreadAtClose then " close-unread" else ""),
+            "P tcp got=" ++ (if how = "opu" then "*" else digest k.peerGot) ++ " end=" ++ showEnd k.peerEnd ++ " sc=" ++ toString sc ++ " disc=" ++ toString dc,
+            "M tcp sys=" ++ (if sys.isEmpty then "-" else ",".intercalate sys)]
+  | _ => none
+
+/-- driver state of the single-object ops: the kernel-queue model over Model.lean, and whether the op
+file asked `write(2)` to accept bytes after shutdown(SHUT_WR) (not an execution of the kernel: nothing
+more is compared in the case) -/
+structure DS where
+  k : Kern.K := {}
+  refused : Bool := false
+
+def mLine (k k' : Kern.K) : String :=
+  let sys := (k'.sys.drop k.sys.length).map showSys
+  let sysS := " sys=" ++ (if sys.isEmpty then "-" else ",".intercalate sys)
+  let s' := k'.u
+  if s'.conn ∧ s'.expired then "M gone" ++ sysS else
+  "M armed=" ++ b01 s'.writeArmed ++ " ron=" ++ b01 s'.readOn ++ " sq=" ++ toString s'.sendQ.length ++ sysS
+
+def stepLine (ds : DS) (line : String) : DS × List String :=
+  let ws := words line
+  let k := ds.k
+  let s := k.u
+  match ws with
+  | [] => (ds, [])
+  | "e2e" :: _ => (ds, (e2eLine ws).getD ["bad-op"])
+  | "tcp" :: _ => (ds, (tcpLine ws).getD ["bad-op"])
   | _ =>
+    if ds.refused then (ds, ["P kernel-refuses"]) else
+    match ws with
+    | ["pread", n] =>
+        match n.toNat? with
+        | some (n + 1) =>
+            let k' := Kern.kstep unixCfg k (.peerRead n)
+            ({ ds with k := k' }, ["B " ++ (if k'.peerEnd != k.peerEnd then "pread-end-" ++ showEnd k'.peerEnd else if k'.peerGot.length > k.peerGot.length then "pread-data" else "pread-idle") ++
+                                     (if k'.kq ≠ [] then " pread-left" else ""),
+                                   "P pread got=" ++ digest (k'.peerGot.drop k.peerGot.length) ++ " end=" ++ showEnd k'.peerEnd])
+        | _ => (ds, ["bad-op"])
+    | ["shut"] =>
+        if !s.conn then (ds, ["bad-op"]) else
+        let k' := Kern.kstep unixCfg k .shutWr
+        let r := s.conn && !s.expired
+        ({ ds with k := k' }, ["B shut" ++ (if k.kq ≠ [] then " shut-with-queue" else ""),
+          "P ret=" ++ b01 r ++ " st=" ++ showSt s ++ " ev=- wire+=- rq=" ++ (if s.conn ∧ s.expired then "x" else digest s.recvQ), mLine k k'])
+    | ["defer"] =>
+        let k' := Kern.kstep unixCfg k (.deferred 0)
+        ({ ds with k := k' }, ["B defer" ++ (if k'.closed && !k.closed then " close" ++ (if k.kq ≠ [] then " close-with-queue" else "") ++ (if k'.aborted then " close-unread" else "") else ""),
+          "P ret=1 st=" ++ showSt s ++ " ev=- wire+=- rq=" ++ (if s.conn ∧ s.expired then "x" else digest s.recvQ), mLine k k'])
+    | _ =>
     match parseOp ws with
-    | none => (s, ["bad-op"])
+    | none => (ds, ["bad-op"])
     | some op =>
-      if !op.okIn s then (s, ["bad-op"]) else
-      let (s', r) := step s op
+      if !op.okIn s then (ds, ["bad-op"]) else
+      -- a peer write to a closed descriptor fails: not an operation of the model
+      if k.closed && (match op with | .feed _ => true | _ => false) then (ds, ["bad-op"]) else
+      let ur := Kern.userStepR unixCfg k op 0
+      if ur.refused then ({ ds with refused := true }, ["B kernel-refuses", "P kernel-refuses"]) else
+      let k' := ur.k
+      let s' := k'.u
+      let r := ur.ret
       let evs := (s'.hist.drop s.hist.length).filterMap showEv
-      let tags := branchTags s op s'
-      (s', (if tags.isEmpty then [] else ["B " ++ " ".intercalate tags]) ++
+      let tags := branchTags s op s' ++
+        (if k'.closed && !k.closed then ["close"] ++ (if k'.kq ≠ [] then ["close-with-queue"] else []) ++ (if k'.aborted then ["close-unread"] else []) else [])
+      ({ ds with k := k' }, (if tags.isEmpty then [] else ["B " ++ " ".intercalate tags]) ++
         ["P ret=" ++ b01 r ++ " st=" ++ showSt s' ++ " ev=" ++ (if evs.isEmpty then "-" else ",".intercalate evs) ++
-           " wire+=" ++ digest (s'.wire.drop s.wire.length) ++
+           " wire+=" ++ digest ur.delta ++
            " rq=" ++ (if s'.conn ∧ s'.expired then "x" else digest s'.recvQ),
-         if s'.conn ∧ s'.expired then "M gone" else
-         "M armed=" ++ b01 s'.writeArmed ++ " ron=" ++ b01 s'.readOn ++ " sq=" ++ toString s'.sendQ.length])
+         mLine k k'])
 
 def isNetOp (w : String) : Bool :=
   w.length ≥ 2 ∧ w.startsWith "n" ∧ "sckrabf".contains (w.toList.getD 1 ' ')
 
-def stepBoth (st : S × Net.N) (line : String) : (S × Net.N) × List String :=
+def stepBoth (st : DS × Net.N) (line : String) : (DS × Net.N) × List String :=
   match words line with
-  | "case" :: _ => ((init, Net.init), [line.trimAscii.toString])
+  | "case" :: _ => (({}, Net.init), [line.trimAscii.toString])
   | w :: ws =>
       if isNetOp w then
         let r := NetDrv.stepLine st.2 (w :: ws)
@@ -380,4 +479,4 @@ def stepBoth (st : S × Net.N) (line : String) : (S × Net.N) × List String :=
         ((r.1, st.2), r.2)
   | [] => (st, [])
 
-def main : IO Unit := runDriver (init, Net.init) stepBoth
+def main : IO Unit := runDriver (({} : DS), Net.init) stepBoth
